@@ -346,6 +346,12 @@ func (r *reassemblyQueue) pushWithError(chunk *chunkPayloadData) (bool, error) {
 	if cset != nil && cset.hasTSN(chunk.tsn) {
 		return false, nil
 	}
+	// A message that is already complete (and waits to be read) takes no more
+	// fragments: a stray chunk carrying its stream sequence number would break the
+	// TSN contiguity of the set and make the message undeliverable for good.
+	if cset != nil && cset.isComplete() {
+		return false, nil
+	}
 	if r.hasDataLimit() && r.isDataLimitReached(r.orderedDataEntryCount()) {
 		return false, errReassemblyQueueLimitExceeded
 	}
